@@ -17,6 +17,13 @@ def run(ctx):
     from rules.C01 import wire_and_consumption
     wire_and_consumption(ctx, cons=True, strict_verdict=True)
     R.floor("VERDICT", 4)
+    # LEN is part of the layout: what Message::new records as payload length (and so writes into the length field) must
+    # be the length of the payload bytes it will serialise, and overall_length() must add the header lengths the flags
+    # announce (shared with C15)
+    from rules import C15
+    if all(ctx.facts.body(p_) is not None for p_ in (C15.NEW, C15.OVERALL)):
+        C15.tab_n(ctx)
+        C15.overall_len(ctx)
     from rules.C01 import code_tables
     code_tables(ctx)
     from rules import lib_wirep, lib_wirepa
